@@ -171,7 +171,7 @@ pub fn run_c19(cases: usize, max_n: usize, seed: u64, threads: usize, timeout: D
                 run.max_jobs = run.max_jobs.max(r.jobs);
                 run.max_depth = run.max_depth.max(r.depth);
                 *run.by_cascade.entry(CASCADES[c.cascade as usize % 6].to_string()).or_insert(0) += 1;
-                *run.by_shape.entry(SHAPES[c.shape as usize % 7].to_string()).or_insert(0) += 1;
+                *run.by_shape.entry(SHAPES[c.shape as usize % 8].to_string()).or_insert(0) += 1;
                 if r.jobs > 60 {
                     run.distinct.insert((c.shape, c.pattern, c.cascade, bucket(r.jobs)));
                 }
@@ -227,11 +227,12 @@ pub fn run_c19(cases: usize, max_n: usize, seed: u64, threads: usize, timeout: D
 /// every cascade x three kind patterns (random cases seldom hit "largest width AND this cascade")
 pub fn corner_cases(max_n: usize) -> Vec<BigCase> {
     let mut v = vec![];
-    for shape in 0u8..7 {
+    for shape in 0u8..8 {
         let (n, width) = match shape {
             1 => (max_n, ((max_n as f64).sqrt() as usize).max(2)),
             2 => (max_n.min(6000), 1),
             6 => (max_n.min(8000), 1),
+            7 => (max_n.min(12000), 1),
             5 => {
                 let w = (max_n / 20).clamp(20, 400);
                 (1 + 3 * w, w)
